@@ -45,17 +45,17 @@ package builder
 //@   ensures [ic-ranges C15 C01] (ignoreCase ==> forall k int, m rune :: 0 <= k && 2*k < len(ranges) && ranges[2*k] <= m && m <= ranges[2*k+1] && m < 128 ==> basicLatinChars[m] && basicLatinChars[toLower(m)] && basicLatinChars[toUpper(m)])
 //@   ensures [table=general C15 C01] forall r rune :: 0 <= r && r < 128 ==> basicLatinChars[r] == GenHit(chars, ranges, unicodeClasses, ignoreCase, r)
 //@   loop#1 invariant [chars C15] !ignoreCase ==> forall r rune :: 0 <= r && r < 128 ==> basicLatinChars[r] == (exists k int :: 0 <= k && k < idx && chars[k] == r)
-//@   loop#1 invariant [ic-chars C15] (ignoreCase ==> forall k int :: 0 <= k && k < idx && chars[k] < 128 ==> basicLatinChars[chars[k]] && basicLatinChars[toLower(chars[k])] && basicLatinChars[toUpper(chars[k])])
-//@   loop#2 invariant [ic C15] (ignoreCase ==> forall k int :: 0 <= k && k < len(chars) && chars[k] < 128 ==> basicLatinChars[chars[k]] && basicLatinChars[toLower(chars[k])] && basicLatinChars[toUpper(chars[k])]) && (ignoreCase ==> forall k int, m rune :: 0 <= k && 2*k < i && ranges[2*k] <= m && m <= ranges[2*k+1] && m < 128 ==> basicLatinChars[m] && basicLatinChars[toLower(m)] && basicLatinChars[toUpper(m)])
+//@   loop#1 invariant [ic-chars C15 C01] (ignoreCase ==> forall k int :: 0 <= k && k < idx && chars[k] < 128 ==> basicLatinChars[chars[k]] && basicLatinChars[toLower(chars[k])] && basicLatinChars[toUpper(chars[k])])
+//@   loop#2 invariant [ic C15 C01] (ignoreCase ==> forall k int :: 0 <= k && k < len(chars) && chars[k] < 128 ==> basicLatinChars[chars[k]] && basicLatinChars[toLower(chars[k])] && basicLatinChars[toUpper(chars[k])]) && (ignoreCase ==> forall k int, m rune :: 0 <= k && 2*k < i && ranges[2*k] <= m && m <= ranges[2*k+1] && m < 128 ==> basicLatinChars[m] && basicLatinChars[toLower(m)] && basicLatinChars[toUpper(m)])
 //@   loop#2 invariant [ranges C15] i % 2 == 0 && 0 <= i && i <= len(ranges) && (!ignoreCase ==> forall r rune :: 0 <= r && r < 128 ==> basicLatinChars[r] ==
 //@     | ((exists k int :: 0 <= k && k < len(chars) && chars[k] == r) || (exists k int :: 0 <= k && 2*k < i && ranges[2*k] <= r && r <= ranges[2*k+1])))
-//@   loop#3 invariant [ic C15] (ignoreCase ==> forall k int :: 0 <= k && k < len(chars) && chars[k] < 128 ==> basicLatinChars[chars[k]] && basicLatinChars[toLower(chars[k])] && basicLatinChars[toUpper(chars[k])]) && (ignoreCase ==> forall k int, m rune :: 0 <= k && 2*k < i && ranges[2*k] <= m && m <= ranges[2*k+1] && m < 128 ==> basicLatinChars[m] && basicLatinChars[toLower(m)] && basicLatinChars[toUpper(m)]) && (ignoreCase ==> forall m rune :: ranges[i] <= m && m < j && m <= ranges[i+1] && m < 128 ==> basicLatinChars[m] && basicLatinChars[toLower(m)] && basicLatinChars[toUpper(m)])
+//@   loop#3 invariant [ic C15 C01] (ignoreCase ==> forall k int :: 0 <= k && k < len(chars) && chars[k] < 128 ==> basicLatinChars[chars[k]] && basicLatinChars[toLower(chars[k])] && basicLatinChars[toUpper(chars[k])]) && (ignoreCase ==> forall k int, m rune :: 0 <= k && 2*k < i && ranges[2*k] <= m && m <= ranges[2*k+1] && m < 128 ==> basicLatinChars[m] && basicLatinChars[toLower(m)] && basicLatinChars[toUpper(m)]) && (ignoreCase ==> forall m rune :: ranges[i] <= m && m < j && m <= ranges[i+1] && m < 128 ==> basicLatinChars[m] && basicLatinChars[toLower(m)] && basicLatinChars[toUpper(m)])
 //@   loop#3 invariant [range-inner C15] i % 2 == 0 && 0 <= i && i + 1 < len(ranges) && j >= ranges[i] && j >= 0 && (!ignoreCase ==> forall r rune :: 0 <= r && r < 128 ==> basicLatinChars[r] ==
 //@     | ((exists k int :: 0 <= k && k < len(chars) && chars[k] == r) || (exists k int :: 0 <= k && 2*k < i && ranges[2*k] <= r && r <= ranges[2*k+1]) || (ranges[i] <= r && r < j && r <= ranges[i+1])))
-//@   loop#4 invariant [ic C15] (ignoreCase ==> forall k int :: 0 <= k && k < len(chars) && chars[k] < 128 ==> basicLatinChars[chars[k]] && basicLatinChars[toLower(chars[k])] && basicLatinChars[toUpper(chars[k])]) && (ignoreCase ==> forall k int, m rune :: 0 <= k && 2*k < len(ranges) && ranges[2*k] <= m && m <= ranges[2*k+1] && m < 128 ==> basicLatinChars[m] && basicLatinChars[toLower(m)] && basicLatinChars[toUpper(m)])
+//@   loop#4 invariant [ic C15 C01] (ignoreCase ==> forall k int :: 0 <= k && k < len(chars) && chars[k] < 128 ==> basicLatinChars[chars[k]] && basicLatinChars[toLower(chars[k])] && basicLatinChars[toUpper(chars[k])]) && (ignoreCase ==> forall k int, m rune :: 0 <= k && 2*k < len(ranges) && ranges[2*k] <= m && m <= ranges[2*k+1] && m < 128 ==> basicLatinChars[m] && basicLatinChars[toLower(m)] && basicLatinChars[toUpper(m)])
 //@   loop#4 invariant [classes C15] !ignoreCase ==> forall r rune :: 0 <= r && r < 128 ==> basicLatinChars[r] ==
 //@     | ((exists k int :: 0 <= k && k < len(chars) && chars[k] == r) || (exists k int :: 0 <= k && 2*k + 1 < len(ranges) && ranges[2*k] <= r && r <= ranges[2*k+1]) || (exists k int :: 0 <= k && k < idx && uniIs(RtOf(unicodeClasses[k]), r)))
-//@   loop#5 invariant [ic C15] (ignoreCase ==> forall k int :: 0 <= k && k < len(chars) && chars[k] < 128 ==> basicLatinChars[chars[k]] && basicLatinChars[toLower(chars[k])] && basicLatinChars[toUpper(chars[k])]) && (ignoreCase ==> forall k int, m rune :: 0 <= k && 2*k < len(ranges) && ranges[2*k] <= m && m <= ranges[2*k+1] && m < 128 ==> basicLatinChars[m] && basicLatinChars[toLower(m)] && basicLatinChars[toUpper(m)])
+//@   loop#5 invariant [ic C15 C01] (ignoreCase ==> forall k int :: 0 <= k && k < len(chars) && chars[k] < 128 ==> basicLatinChars[chars[k]] && basicLatinChars[toLower(chars[k])] && basicLatinChars[toUpper(chars[k])]) && (ignoreCase ==> forall k int, m rune :: 0 <= k && 2*k < len(ranges) && ranges[2*k] <= m && m <= ranges[2*k+1] && m < 128 ==> basicLatinChars[m] && basicLatinChars[toLower(m)] && basicLatinChars[toUpper(m)])
 //@   loop#5 invariant [class-inner C15] 0 <= r && rt == RtOf(cl) && (!ignoreCase ==> forall q rune :: 0 <= q && q < 128 ==> basicLatinChars[q] ==
 //@     | ((exists k int :: 0 <= k && k < len(chars) && chars[k] == q) || (exists k int :: 0 <= k && 2*k + 1 < len(ranges) && ranges[2*k] <= q && q <= ranges[2*k+1]) || (exists k int :: 0 <= k && k < idx4 && uniIs(RtOf(unicodeClasses[k]), q)) || (q < r && uniIs(rt, q))))
 //@   safety C13 C15
@@ -143,22 +143,176 @@ package builder
 //@ func PrepareGrammar(grammar *ast.Grammar) (have bool, err error)
 //@   requires [wf] grammar != nil && TreeWF() && forall k int :: 0 <= k && k < len(grammar.Rules) ==> grammar.Rules[k] != nil
 //@   loop#1 invariant [table] mapRules != nil && RulesWF(mapRules)
+// the analysed rules table is the one the generated parser builds (buildRulesTable): when a name is defined
+// more than once, the LAST definition is the rule that runs, so it is the one that must be analysed
+//@   loop#1 invariant [last-wins C07] grammar.Rules == coll1 && forall k int :: {grammar.Rules[k]} 0 <= k && k < idx1 ==> has(mapRules, grammar.Rules[k].Name.Val) && exists j int :: k <= j && j < idx1 && grammar.Rules[j].Name.Val == grammar.Rules[k].Name.Val && mapRules[grammar.Rules[k].Name.Val] == grammar.Rules[j]
+//@   before ComputeNullables assert [table-as-runtime C07] forall k int :: {grammar.Rules[k]} 0 <= k && k < len(grammar.Rules) ==> has(mapRules, grammar.Rules[k].Name.Val) && exists j int :: k <= j && j < len(grammar.Rules) && grammar.Rules[j].Name.Val == grammar.Rules[k].Name.Val && mapRules[grammar.Rules[k].Name.Val] == grammar.Rules[j]
 //@   modifies Flags, all Rule.LeftRecursive, all Rule.Leader
 //@   ensures [err-means-false C07] err != nil ==> !have
 //@   safety C13
 
-// emission helpers: not under functional contract here (frame only, trusted)
-//@ extern builder.writeInit(b *builder, init *ast.CodeBlock)
+// ======================================================================================
+// Emission of the grammar literal (C01, C08, C13): every builder function that writes the `var g = &grammar{...}`
+// literal is under contract. What is decided: no panic on any tree the front-end builds (C13), and the
+// attribute lines the runtime relies on carry the attribute OF THE NODE being written (the contracts of the
+// runtime take the literal's fields as given: this is the link between the two).
+// writef/writelnf/writeln: formatted output to b.w; only the sticky error changes (assumed: fmt.Fprintf).
+//@ extern builder.writef(b *builder, f string, args []any)
+//@   requires [ctx] b != nil
 //@   modifies all builder.err
-//@ extern builder.writeGrammar(b *builder, g *ast.Grammar)
-//@   modifies all builder.err, all builder.exprIndex, all builder.ruleName, all builder.globalState, all builder.rangeTable, all ActionExpr.FuncIx, all AndCodeExpr.FuncIx, all NotCodeExpr.FuncIx, all StateCodeExpr.FuncIx
-//@ extern builder.writeRuleCode(b *builder, rule *ast.Rule)
-//@   modifies all builder.err, all builder.ruleName, all builder.argsStack, all ActionExpr.FuncIx, all AndCodeExpr.FuncIx, all NotCodeExpr.FuncIx, all StateCodeExpr.FuncIx
+//@ extern builder.writelnf(b *builder, f string, args []any)
+//@   requires [ctx] b != nil
+//@   modifies all builder.err
+//@ extern builder.writeln(b *builder, f string)
+//@   requires [ctx] b != nil
+//@   modifies all builder.err
 //@ extern builder.writeStaticCode(b *builder)
 //@   modifies all builder.err
+//@ spec func trimmed(s string) string
+//@ extern strings.TrimSpace(s string) (r string)
+//@   pure
+//@   ensures r == trimmed(s)
+// what the front-end establishes for code blocks: the text is exactly "{...}"
+//@ pred CodeWF() bool = (forall c *ast.CodeBlock :: {c.Val} c != nil ==> len(c.Val) >= 2 && trimmed(c.Val) == c.Val)
+// ... and for character classes: runes are non-negative, ranges come in pairs, class names are known ones
+//@   | && (forall c *ast.CharClassMatcher, k int :: {c.Chars[k]} c != nil && 0 <= k && k < len(c.Chars) ==> c.Chars[k] >= 0)
+//@   | && (forall c *ast.CharClassMatcher, k int :: {c.Ranges[k]} c != nil && 0 <= k && k < len(c.Ranges) ==> c.Ranges[k] >= 0)
+//@   | && (forall c *ast.CharClassMatcher :: {c.Ranges} c != nil ==> len(c.Ranges) % 2 == 0)
+//@   | && (forall c *ast.CharClassMatcher, k int :: {c.UnicodeClasses[k]} c != nil && 0 <= k && k < len(c.UnicodeClasses) ==> ClassKnown(c.UnicodeClasses[k]))
+//@ frameset Emit = all builder.err, all ActionExpr.FuncIx, all AndCodeExpr.FuncIx, all NotCodeExpr.FuncIx, all StateCodeExpr.FuncIx
+//@ frameset EmitG = all builder.err, all builder.exprIndex, all builder.ruleName, all builder.globalState, all builder.rangeTable, all ActionExpr.FuncIx, all AndCodeExpr.FuncIx, all NotCodeExpr.FuncIx, all StateCodeExpr.FuncIx
+
+//@ func (b *builder) writeInit(init *ast.CodeBlock)
+//@   requires [ctx] b != nil && CodeWF()
+//@   modifies all builder.err
+//@   safety C13
+//@ func (b *builder) writeGrammar(g *ast.Grammar)
+//@   requires [ctx] b != nil && g != nil && TreeWF() && CodeWF()
+//@   modifies EmitG
+//@   loop#1 invariant [ctx] b != nil && TreeWF() && CodeWF()
+//@   safety C13
+//@ func (b *builder) writeRule(r *ast.Rule)
+//@   requires [ctx] b != nil && TreeWF() && CodeWF()
+//@   modifies EmitG
+// the rule's name and its left-recursion flags are the analysed rule's own (C08: a leader, and only a leader,
+// grows the seed; C06/C08: left-recursive rules are never memoized at rule level)
+//@   all-calls builder.writelnf [name-field C01] f == "\tname: %q," ==> len(args) == 1 && as(args[0], "string") == r.Name.Val
+//@   all-calls builder.writelnf [leader-field C08] f == "\tleader: %t," ==> len(args) == 1 && as(args[0], "bool") == r.Leader
+//@   all-calls builder.writelnf [lr-field C08 C06] f == "\tleftRecursive: %t," ==> len(args) == 1 && as(args[0], "bool") == r.LeftRecursive
+//@   must-call builder.writelnf [lr-emitted C08 C06] if r != nil && r.Name != nil && b.haveLeftRecursion then f == "\tleftRecursive: %t,"
+//@   must-call builder.writelnf [leader-emitted C08] if r != nil && r.Name != nil && b.haveLeftRecursion then f == "\tleader: %t,"
+//@   safety C13
+//@ func (b *builder) writeExpr(expr ast.Expression)
+//@   requires [ctx] b != nil && TreeWF() && CodeWF() && (expr == nil || IsExpr(expr))
+//@   modifies EmitG
+//@   safety C13
+
+//@ func (b *builder) writeActionExpr(act *ast.ActionExpr)
+//@   requires [ctx] b != nil && TreeWF() && CodeWF()
+//@   modifies EmitG
+//@   safety C13
+//@ func (b *builder) writeAndCodeExpr(and *ast.AndCodeExpr)
+//@   requires [ctx] b != nil && TreeWF() && CodeWF()
+//@   modifies EmitG
+//@   safety C13
+//@ func (b *builder) writeAndExpr(and *ast.AndExpr)
+//@   requires [ctx] b != nil && TreeWF() && CodeWF()
+//@   modifies EmitG
+//@   safety C13
+//@ func (b *builder) writeAnyMatcher(any *ast.AnyMatcher)
+//@   requires [ctx] b != nil && TreeWF() && CodeWF()
+//@   modifies EmitG
+//@   safety C13
+//@ func (b *builder) writeChoiceExpr(ch *ast.ChoiceExpr)
+//@   requires [ctx] b != nil && TreeWF() && CodeWF()
+//@   modifies EmitG
+//@   loop#1 invariant [ctx] b != nil && TreeWF() && CodeWF()
+//@   safety C13
+//@ func (b *builder) writeLabeledExpr(lab *ast.LabeledExpr)
+//@   requires [ctx] b != nil && TreeWF() && CodeWF()
+//@   modifies EmitG
+//@   all-calls builder.writelnf [label-field C02] f == "\tlabel: %q," ==> len(args) == 1 && as(args[0], "string") == lab.Label.Val
+//@   safety C13
+//@ func (b *builder) writeNotCodeExpr(not *ast.NotCodeExpr)
+//@   requires [ctx] b != nil && TreeWF() && CodeWF()
+//@   modifies EmitG
+//@   safety C13
+//@ func (b *builder) writeNotExpr(not *ast.NotExpr)
+//@   requires [ctx] b != nil && TreeWF() && CodeWF()
+//@   modifies EmitG
+//@   safety C13
+//@ func (b *builder) writeOneOrMoreExpr(one *ast.OneOrMoreExpr)
+//@   requires [ctx] b != nil && TreeWF() && CodeWF()
+//@   modifies EmitG
+//@   safety C13
+//@ func (b *builder) writeRecoveryExpr(recover *ast.RecoveryExpr)
+//@   requires [ctx] b != nil && TreeWF() && CodeWF()
+//@   modifies EmitG
+//@   loop#1 invariant [ctx] b != nil && TreeWF() && CodeWF()
+//@   all-calls builder.writelnf [label-field C14] f == "%q," ==> len(args) == 1 && exists k int :: 0 <= k && k < len(recover.Labels) && as(args[0], "string") == recover.Labels[k]
+//@   safety C13
+//@ func (b *builder) writeRuleRefExpr(ref *ast.RuleRefExpr)
+//@   requires [ctx] b != nil && TreeWF() && CodeWF()
+//@   modifies EmitG
+//@   all-calls builder.writelnf [name-field C01] f == "\tname: %q," ==> len(args) == 1 && as(args[0], "string") == ref.Name.Val
+//@   safety C13
+//@ func (b *builder) writeSeqExpr(seq *ast.SeqExpr)
+//@   requires [ctx] b != nil && TreeWF() && CodeWF()
+//@   modifies EmitG
+//@   loop#1 invariant [ctx] b != nil && TreeWF() && CodeWF()
+//@   safety C13
+//@ func (b *builder) writeStateCodeExpr(state *ast.StateCodeExpr)
+//@   requires [ctx] b != nil && TreeWF() && CodeWF()
+//@   modifies EmitG
+//@   safety C13
+//@ func (b *builder) writeThrowExpr(throw *ast.ThrowExpr)
+//@   requires [ctx] b != nil && TreeWF() && CodeWF()
+//@   modifies EmitG
+//@   all-calls builder.writelnf [label-field C14] f == "\tlabel: %q," ==> len(args) == 1 && as(args[0], "string") == throw.Label
+//@   safety C13
+//@ func (b *builder) writeZeroOrMoreExpr(zero *ast.ZeroOrMoreExpr)
+//@   requires [ctx] b != nil && TreeWF() && CodeWF()
+//@   modifies EmitG
+//@   safety C13
+//@ func (b *builder) writeZeroOrOneExpr(zero *ast.ZeroOrOneExpr)
+//@   requires [ctx] b != nil && TreeWF() && CodeWF()
+//@   modifies EmitG
+//@   safety C13
+//@ func (b *builder) writeLitMatcher(lit *ast.LitMatcher)
+//@   requires [ctx] b != nil && TreeWF() && CodeWF()
+//@   modifies EmitG
+// the literal is stored lower-cased exactly when it is case-insensitive (the runtime lower-cases the input rune, not the literal)
+//@   all-calls builder.writelnf [val-field C01] f == "\tval: %q," ==> len(args) == 1 && as(args[0], "string") == ite(lit.IgnoreCase, lowerS(lit.Val), lit.Val)
+//@   all-calls builder.writelnf [ic-field C01] f == "\tignoreCase: %t," ==> len(args) == 1 && as(args[0], "bool") == lit.IgnoreCase
+//@   must-call builder.writelnf [val-emitted C01] if lit != nil then f == "\tval: %q,"
+//@   must-call builder.writelnf [ic-emitted C01] if lit != nil then f == "\tignoreCase: %t,"
+//@   safety C13
+//@ func (b *builder) writeCharClassMatcher(ch *ast.CharClassMatcher)
+//@   requires [ctx] b != nil && TreeWF() && CodeWF()
+//@   modifies EmitG
+// members are stored lower-cased exactly when the class is case-insensitive; the flags are the class's own;
+// the Basic Latin table is computed from the class's own members (C15)
+//@   all-calls builder.writelnf [ic-field C01 C15] f == "\tignoreCase: %t," ==> len(args) == 1 && as(args[0], "bool") == ch.IgnoreCase
+//@   all-calls builder.writelnf [inverted-field C01] f == "\tinverted: %t," ==> len(args) == 1 && as(args[0], "bool") == ch.Inverted
+//@   must-call builder.writelnf [ic-emitted C01] if ch != nil then f == "\tignoreCase: %t,"
+//@   must-call builder.writelnf [inverted-emitted C01] if ch != nil then f == "\tinverted: %t,"
+//@   before BasicLatinLookup assert [table-of-this-class C15] chars == ch.Chars && ranges == ch.Ranges && unicodeClasses == ch.UnicodeClasses && ignoreCase == ch.IgnoreCase
+//@   loop#1 invariant [ctx] b != nil && ch != nil
+//@   loop#2 invariant [ctx] b != nil && ch != nil
+//@   loop#3 invariant [ctx] b != nil && ch != nil
+//@   safety C13
+//@ spec func lowerS(s string) string
+//@ extern strings.ToLower(s string) (r string)
+//@   pure
+//@   ensures r == lowerS(s)
+
+//@ func (b *builder) writeRuleCode(rule *ast.Rule)
+//@   requires [ctx] b != nil && TreeWF() && CodeWF()
+//@   modifies all builder.ruleName, all builder.argsStack, Emit
+//@   safety C13
 
 //@ func (b *builder) buildParser(grammar *ast.Grammar) (res error)
-//@   requires [wf] b != nil && grammar != nil && TreeWF() && forall k int :: 0 <= k && k < len(grammar.Rules) ==> grammar.Rules[k] != nil
+//@   requires [wf] b != nil && grammar != nil && TreeWF() && CodeWF() && forall k int :: 0 <= k && k < len(grammar.Rules) ==> grammar.Rules[k] != nil
 //@   modifies Flags, all Rule.LeftRecursive, all Rule.Leader, all builder.err, all builder.exprIndex, all builder.ruleName, all builder.globalState, all builder.rangeTable, all builder.argsStack, all builder.haveLeftRecursion, all ActionExpr.FuncIx, all AndCodeExpr.FuncIx, all NotCodeExpr.FuncIx, all StateCodeExpr.FuncIx
 // C07: an analysis error and left recursion without -support-left-recursion are build errors
 //@   ensures [reject C07 C13 local] (err != nil ==> res != nil) && (err == nil && haveLeftRecursion && !old(b.supportLeftRecursion) ==> res != nil)
@@ -196,22 +350,41 @@ package builder
 //@   ensures [added C04 C02] arg != nil ==> len(b.argsStack[len(b.argsStack)-1]) == old(len(b.argsStack[len(b.argsStack)-1])) + 1 && b.argsStack[len(b.argsStack)-1][old(len(b.argsStack[len(b.argsStack)-1]))] == arg.Val
 //@   safety C13
 
-//@ frameset Emit = all builder.err, all ActionExpr.FuncIx, all AndCodeExpr.FuncIx, all NotCodeExpr.FuncIx, all StateCodeExpr.FuncIx
-//@ extern builder.writeActionExprCode(b *builder, act *ast.ActionExpr)
+// the code-block methods: each block is rendered once (FuncIx is reset), with the labels of the innermost
+// args set as parameters; no panic on any code block the front-end builds (C13)
+//@ func (b *builder) writeFunc(funcIx int, code *ast.CodeBlock, callTpl string, funcTpl string)
+//@   requires [ctx] b != nil && CodeWF()
+//@   modifies all builder.err
+//@   loop#1 invariant [ctx] b != nil && ix == len(b.argsStack) - 1 && ix >= 0
+//@   loop#2 invariant [ctx] b != nil && ix == len(b.argsStack) - 1 && ix >= 0
+//@   safety C13
+//@ func (b *builder) writeActionExprCode(act *ast.ActionExpr)
+//@   requires [ctx] b != nil && CodeWF()
 //@   modifies Emit
-//@ extern builder.writeAndCodeExprCode(b *builder, and *ast.AndCodeExpr)
+//@   ensures [once C04] act != nil ==> act.FuncIx <= 0
+//@   safety C13
+//@ func (b *builder) writeAndCodeExprCode(and *ast.AndCodeExpr)
+//@   requires [ctx] b != nil && CodeWF()
 //@   modifies Emit
-//@ extern builder.writeNotCodeExprCode(b *builder, not *ast.NotCodeExpr)
+//@   ensures [once C04] and != nil ==> and.FuncIx <= 0
+//@   safety C13
+//@ func (b *builder) writeNotCodeExprCode(not *ast.NotCodeExpr)
+//@   requires [ctx] b != nil && CodeWF()
 //@   modifies Emit
-//@ extern builder.writeStateCodeExprCode(b *builder, state *ast.StateCodeExpr)
+//@   ensures [once C04] not != nil ==> not.FuncIx <= 0
+//@   safety C13
+//@ func (b *builder) writeStateCodeExprCode(state *ast.StateCodeExpr)
+//@   requires [ctx] b != nil && CodeWF()
 //@   modifies Emit
+//@   ensures [once C04] state != nil ==> state.FuncIx <= 0
+//@   safety C13
 
 // writeExprCode decides which labels a code block receives: the labels collected in the innermost
 // args set. The runtime opens a label scope (pushV) for exactly these expression kinds: the operand of
 // & ! ? * +, a labeled expression's operand, every choice alternative (and the rule body); a sequence,
 // an action and a recovery expression stay in the scope they are in. Builder and runtime must agree.
 //@ func (b *builder) writeExprCode(expr ast.Expression)
-//@   requires [ctx] b != nil && len(b.argsStack) >= 1 && TreeWF() && (expr == nil || IsExpr(expr))
+//@   requires [ctx] b != nil && len(b.argsStack) >= 1 && TreeWF() && CodeWF() && (expr == nil || IsExpr(expr))
 //@   modifies b.argsStack, Emit
 //@   ensures [balanced C04 C02] len(b.argsStack) == old(len(b.argsStack)) && forall k int :: 0 <= k && k < len(b.argsStack) - 1 ==> b.argsStack[k] == old(b.argsStack[k])
 //@   before builder.writeExprCode#1 assert [action-same-scope C04 C02] len(b.argsStack) == old(len(b.argsStack))
@@ -223,6 +396,6 @@ package builder
 //@   before builder.writeExprCode#9 assert [seq-same-scope C04 C02] len(b.argsStack) == old(len(b.argsStack))
 //@   before builder.writeExprCode#10 assert [star-opens-scope C04 C02] len(b.argsStack) == old(len(b.argsStack)) + 1
 //@   before builder.writeExprCode#11 assert [opt-opens-scope C04 C02] len(b.argsStack) == old(len(b.argsStack)) + 1
-//@   loop#1 invariant [bal] b != nil && TreeWF() && len(b.argsStack) == old(len(b.argsStack)) && forall k int :: 0 <= k && k < len(b.argsStack) - 1 ==> b.argsStack[k] == old(b.argsStack[k])
-//@   loop#2 invariant [bal] b != nil && TreeWF() && len(b.argsStack) == old(len(b.argsStack)) && forall k int :: 0 <= k && k < len(b.argsStack) - 1 ==> b.argsStack[k] == old(b.argsStack[k])
+//@   loop#1 invariant [bal] b != nil && TreeWF() && CodeWF() && len(b.argsStack) == old(len(b.argsStack)) && forall k int :: 0 <= k && k < len(b.argsStack) - 1 ==> b.argsStack[k] == old(b.argsStack[k])
+//@   loop#2 invariant [bal] b != nil && TreeWF() && CodeWF() && len(b.argsStack) == old(len(b.argsStack)) && forall k int :: 0 <= k && k < len(b.argsStack) - 1 ==> b.argsStack[k] == old(b.argsStack[k])
 //@   safety C13
